@@ -18,6 +18,18 @@
 //   expansion    computeCellExpansion: 1 for fixed cells and for cells meeting no congested region, otherwise
 //                the largest (c-1)*penaltyFactor+fixedPenalty+1 over the congested regions (c > 1) the
 //                placement intersects (relative tolerance 1e-5 for float rounding)
+// Object-history stream (harness/common/history.hpp): ONE Circuit object goes through a random sequence of public
+// mutators (setRows, setupRows with all flag combinations, setCellX/Y/Width/Height, setCellIsFixed, setCellIsObstruction,
+// setCellOrientation, setCellRowPolarity, setSolution, addNet) interleaved with the observed calls
+// computeRowPlacementArea, expandCellsToDensity, expandCellsByFactor (both applied to the object itself, so the
+// expansions accumulate) and computeCellExpansion; several observations per object, the same one twice, observation ->
+// one mutator -> same observation, the side margin mostly the same within a history.  Every observation is (a) checked
+// by the invariant oracle against a snapshot of the public state taken just before the call, (b) compared result for
+// result (widths, returned ratio, exception) with the same call on a freshly constructed Circuit rebuilt from that
+// snapshot through the public setters (a copy would carry hidden members), and (c) sent to the Lean driver as one more
+// case with the circuit as it was just before the call (when the replica shows no rounding).  A failure's input is the
+// whole history up to the observation; --replay re-runs such an input alone.
+//
 // "available area" is computed here from scratch: rows minus the column ranges touched by fixed obstruction
 // cells, each free segment shortened by 2*margin*height and truncated to whole columns.
 #include <algorithm>
@@ -39,6 +51,7 @@
 
 #include "common/circuit.hpp"
 #include "common/harness.hpp"
+#include "common/history.hpp"
 
 using namespace coloquinte;
 
@@ -211,6 +224,9 @@ static std::string dy(double v) { return vc::exactDouble(v); }
 struct Runner {
   vh::Out &out;
   explicit Runner(vh::Out &o) : out(o) {}
+  // history stream: the input reported with a failure is the whole history, not the single call
+  const std::string *inputOverride = nullptr;
+  std::string inputOr(const std::string &dflt) const { return inputOverride ? *inputOverride : dflt; }
 
   void header(const std::string &id, const Circuit &c) {
     out.ops << "case " << id << "\n";
@@ -224,28 +240,33 @@ struct Runner {
     return os.str();
   }
 
-  void rowArea(const std::string &id, const Circuit &c, double margin) {
+  long long rowArea(const std::string &id, const Circuit &c, double margin) {
     Ex ex;
     replicaRowArea(ex, c, margin);
     long long a = c.computeRowPlacementArea(margin);
     Avail av = availableArea(c, margin);
     if ((long double)a < av.lo - 0.5L || (long double)a > av.hi + 0.5L)
       out.fail(id, "computeRowPlacementArea = " + std::to_string(a) + " but rows minus fixed obstructions minus margins = " + std::to_string((double)av.hi),
-               vc::circuitString(c) + "margin " + dy(margin));
+               inputOr(vc::circuitString(c) + "margin " + dy(margin)));
     if (ex.ok) {
       out.ops << "rowarea " << dy(margin) << "\n";
       out.impl << "rowarea " << a << "\n";
       out.count("exact_rowarea");
     }
+    return a;
   }
 
-  void toDensity(const std::string &id, const Circuit &c0, double target, double margin, double maxExp) {
+  // c0: the state before the call (never observed before); the call is made on *obj when given (history stream:
+  // the object keeps the expansion), else on a copy of c0
+  void toDensity(const std::string &id, const Circuit &c0, double target, double margin, double maxExp, Circuit *obj = nullptr) {
     std::ostringstream in;
     in << vc::circuitString(c0) << "expandCellsToDensity target " << dy(target) << " margin " << dy(margin) << " maxExpandedWidth " << dy(maxExp);
-    vh::setCase(id, in.str());
+    const std::string callText = in.str(), input = inputOr(callText);
+    vh::setCase(id, input);
     out.evaluations++;
     bool exact = exactToDensity(c0, target, margin, maxExp);
-    Circuit c = c0;
+    Circuit local = c0;
+    Circuit &c = obj ? *obj : local;
     c.expandCellsToDensity(target, margin, maxExp);
     if (exact) {
       out.ops << "todensity " << dy(target) << " " << dy(margin) << " " << dy(maxExp) << "\n";
@@ -254,7 +275,7 @@ struct Runner {
     out.count(exact ? "todensity_exact" : "todensity_inexact");
     // ---- oracle
     std::string fr = frameCheck(c0, c);
-    if (!fr.empty()) out.fail(id, "expandCellsToDensity: " + fr, in.str());
+    if (!fr.empty()) out.fail(id, "expandCellsToDensity: " + fr, input);
     Avail av = availableArea(c0, margin);
     long long before = movableArea(c0), after = movableArea(c);
     int maxRowWidth = 0;
@@ -267,7 +288,7 @@ struct Runner {
     for (int i = 0; i < c0.nbCells(); ++i) {
       if (c0.cellIsFixed()[i]) continue;
       int w0 = c0.cellWidth()[i], w1 = c.cellWidth()[i], h = c0.cellHeight()[i];
-      if ((long double)w0 <= cap * (1 - 1e-12L) && w1 < w0) out.fail(id, "movable cell " + std::to_string(i) + " became narrower although the cap is not below its width", in.str());
+      if ((long double)w0 <= cap * (1 - 1e-12L) && w1 < w0) out.fail(id, "movable cell " + std::to_string(i) + " became narrower although the cap is not below its width", input);
       if (w0 > 0 && h > 0) {
         maxH = std::max(maxH, h);
         if (before > 0) {
@@ -279,30 +300,33 @@ struct Runner {
     }
     long double bound = std::max<long double>(before, tgtHi);
     if ((long double)after > bound * (1 + 1e-9L) + 1e-6L)
-      out.fail(id, "movable area after = " + std::to_string(after) + " exceeds max(area before, target * available area) = " + std::to_string((double)bound), in.str());
+      out.fail(id, "movable area after = " + std::to_string(after) + " exceeds max(area before, target * available area) = " + std::to_string((double)bound), input);
     bool dense = before == 0 || av.hi == 0 || (long double)before >= tgtHi * (1 + 1e-9L);
     bool sparse = before > 0 && av.lo > 0 && (long double)before < tgtLo * (1 - 1e-9L);
-    if (dense && changed) out.fail(id, "density already at or above the target but widths changed", in.str());
+    if (dense && changed) out.fail(id, "density already at or above the target but widths changed", input);
     if (sparse && !anyCapped && !nearCap) {
       if (!((long double)after > tgtLo * (1 - 1e-9L) - maxH - 1e-6L))
         out.fail(id, "no cap hit but movable area after = " + std::to_string(after) + " is not within one cell height (" + std::to_string(maxH) +
-                         ") of target * available area = " + std::to_string((double)tgtLo), in.str());
+                         ") of target * available area = " + std::to_string((double)tgtLo), input);
       out.count("todensity_reach_checked");
     }
     out.count(dense ? "todensity_noop_dense" : (anyCapped ? "todensity_cap_hit" : "todensity_expanded_uncapped"));
-    if (changed) out.nontrivial(vh::hashStr(in.str()));
-    if (changed) out.sample(in.str().substr(0, 300));
+    if (changed) out.nontrivial(vh::hashStr(callText));
+    if (changed) out.sample(callText.substr(0, 300));
   }
 
-  void byFactor(const std::string &id, const Circuit &c0, const std::vector<float> &f, double maxD, double margin) {
+  void byFactor(const std::string &id, const Circuit &c0, const std::vector<float> &f, double maxD, double margin, Circuit *obj = nullptr,
+                std::string *outcome = nullptr) {
     std::ostringstream in;
     in << vc::circuitString(c0) << "expandCellsByFactor maxDensity " << dy(maxD) << " margin " << dy(margin) << " factors";
     for (float e : f) in << " " << dy(e);
-    vh::setCase(id, in.str());
+    const std::string callText = in.str(), input = inputOr(callText);
+    vh::setCase(id, input);
     out.evaluations++;
     bool retExact = true;
     bool exact = exactByFactor(c0, f, maxD, margin, &retExact);
-    Circuit c = c0;
+    Circuit local = c0;
+    Circuit &c = obj ? *obj : local;
     std::string res;
     double ret = 0;
     bool threw = false;
@@ -312,6 +336,7 @@ struct Runner {
       threw = true;
       res = vc::exClass(e);
     }
+    if (outcome) *outcome = threw ? res : "returned " + dy(ret);
     if (exact) {
       out.ops << "byfactor " << (retExact ? 1 : 0) << " " << dy(maxD) << " " << dy(margin);
       for (float e : f) out.ops << " " << dy(e);
@@ -326,41 +351,42 @@ struct Runner {
     bool belowMin = false;
     for (float e : f) { if (e < 1.0f) inDomain = false; if (e < 0.999f) belowMin = true; }
     if (threw) {
-      if (lengthOk && !belowMin) out.fail(id, "expandCellsByFactor threw on a valid factor vector", in.str());
-      if (vc::circuitString(c) != vc::circuitString(c0)) out.fail(id, "expandCellsByFactor threw but modified the circuit", in.str());
+      if (lengthOk && !belowMin) out.fail(id, "expandCellsByFactor threw on a valid factor vector", input);
+      if (vc::circuitString(c) != vc::circuitString(c0)) out.fail(id, "expandCellsByFactor threw but modified the circuit", input);
       out.count("byfactor_throws");
       return;
     }
-    if (!lengthOk || belowMin) out.fail(id, "expandCellsByFactor accepted an invalid factor vector", in.str());
+    if (!lengthOk || belowMin) out.fail(id, "expandCellsByFactor accepted an invalid factor vector", input);
     std::string fr = frameCheck(c0, c);
-    if (!fr.empty()) out.fail(id, "expandCellsByFactor: " + fr, in.str());
+    if (!fr.empty()) out.fail(id, "expandCellsByFactor: " + fr, input);
     if (!inDomain) { out.count("byfactor_factor_below_1"); return; }
     Avail av = availableArea(c0, margin);
     long long before = movableArea(c0), after = movableArea(c);
     bool changed = c.cellWidth() != c0.cellWidth();
     for (int i = 0; i < c0.nbCells(); ++i)
       if (!c0.cellIsFixed()[i] && c0.cellWidth()[i] >= 0 && c.cellWidth()[i] < c0.cellWidth()[i])
-        out.fail(id, "movable cell " + std::to_string(i) + " became narrower (factors >= 1, no width cap)", in.str());
+        out.fail(id, "movable cell " + std::to_string(i) + " became narrower (factors >= 1, no width cap)", input);
     long double capHi = (long double)maxD * av.hi;
     long double bound = std::max<long double>(before, capHi);
     if ((long double)after > bound * (1 + 1e-6L) + 1e-6L)
       out.fail(id, "movable area after = " + std::to_string(after) + " exceeds max(area before, maxDensity * available area) = " + std::to_string((double)bound) +
-                       " (utilisation " + std::to_string((double)(after / std::max<long double>(1, av.hi))) + ")", in.str());
+                       " (utilisation " + std::to_string((double)(after / std::max<long double>(1, av.hi))) + ")", input);
     bool dense = before == 0 || av.hi == 0 || (long double)before >= capHi * (1 + 1e-9L);
-    if (dense && changed) out.fail(id, "density already at or above maxDensity but widths changed", in.str());
-    if (dense && ret != 1.0) out.fail(id, "density already at or above maxDensity but the returned ratio is not 1", in.str());
+    if (dense && changed) out.fail(id, "density already at or above maxDensity but widths changed", input);
+    if (dense && ret != 1.0) out.fail(id, "density already at or above maxDensity but the returned ratio is not 1", input);
     long double expandedExact = 0;
     for (int i = 0; i < c0.nbCells(); ++i) if (!c0.cellIsFixed()[i]) expandedExact += (long double)f[i] * c0.cellWidth()[i] * c0.cellHeight()[i];
     bool adjusted = !dense && av.hi > 0 && expandedExact > capHi;
     out.count(dense ? "byfactor_noop_dense" : (adjusted ? "byfactor_ratio_adjusted" : "byfactor_unadjusted"));
-    if (changed) out.nontrivial(vh::hashStr(in.str()));
+    if (changed) out.nontrivial(vh::hashStr(callText));
   }
 
-  void cellExpansion(const std::string &id, const Circuit &c, const std::vector<Region> &m, float fp, float pf) {
+  void cellExpansion(const std::string &id, const Circuit &c, const std::vector<Region> &m, float fp, float pf, std::string *outcome = nullptr) {
     std::ostringstream in;
     in << vc::circuitString(c) << "computeCellExpansion fixedPenalty " << dy(fp) << " penaltyFactor " << dy(pf) << " regions";
     for (auto &rc : m) in << " [" << rc.first.minX << " " << rc.first.maxX << " " << rc.first.minY << " " << rc.first.maxY << " " << dy(rc.second) << "]";
-    vh::setCase(id, in.str());
+    const std::string callText = in.str(), input = inputOr(callText);
+    vh::setCase(id, input);
     out.evaluations++;
     bool exact = exactCellExpansion(m, fp, pf);
     std::vector<float> res;
@@ -371,6 +397,10 @@ struct Runner {
     } catch (const std::exception &e) {
       threw = true;
       ex = vc::exClass(e);
+    }
+    if (outcome) {
+      *outcome = threw ? ex : "factors";
+      for (float v : res) *outcome += " " + dy(v);
     }
     if (exact) {
       out.ops << "cellexp " << dy(fp) << " " << dy(pf);
@@ -387,12 +417,12 @@ struct Runner {
     out.count(exact ? "cellexp_exact" : "cellexp_inexact");
     bool invalid = fp < 0.0f || pf < 1.0f;
     if (threw) {
-      if (!invalid) out.fail(id, "computeCellExpansion threw on valid penalties", in.str());
+      if (!invalid) out.fail(id, "computeCellExpansion threw on valid penalties", input);
       out.count("cellexp_throws");
       return;
     }
-    if (invalid) { out.fail(id, "computeCellExpansion accepted invalid penalties", in.str()); return; }
-    if ((int)res.size() != c.nbCells()) { out.fail(id, "computeCellExpansion: wrong result size", in.str()); return; }
+    if (invalid) { out.fail(id, "computeCellExpansion accepted invalid penalties", input); return; }
+    if ((int)res.size() != c.nbCells()) { out.fail(id, "computeCellExpansion: wrong result size", input); return; }
     bool any = false;
     for (int i = 0; i < c.nbCells(); ++i) {
       long double want = 1.0L;
@@ -412,14 +442,117 @@ struct Runner {
         }
       }
       if (!congested) {
-        if (res[i] != 1.0f) out.fail(id, "cell " + std::to_string(i) + " is fixed or meets no congested region but its factor is not 1", in.str());
+        if (res[i] != 1.0f) out.fail(id, "cell " + std::to_string(i) + " is fixed or meets no congested region but its factor is not 1", input);
       } else {
         any = true;
-        if (std::fabs((long double)res[i] - want) > 1e-5L * want) out.fail(id, "cell " + std::to_string(i) + ": factor " + std::to_string(res[i]) + " is not the largest factor of the congested regions it intersects (" + std::to_string((double)want) + ")", in.str());
+        if (std::fabs((long double)res[i] - want) > 1e-5L * want) out.fail(id, "cell " + std::to_string(i) + ": factor " + std::to_string(res[i]) + " is not the largest factor of the congested regions it intersects (" + std::to_string((double)want) + ")", input);
       }
     }
     out.count(any ? "cellexp_some_cell_congested" : "cellexp_no_cell_congested");
-    if (any) out.nontrivial(vh::hashStr(in.str()));
+    if (any) out.nontrivial(vh::hashStr(callText));
+  }
+
+  // ------------------------------------------------------------------ object histories
+  static bool readDy(std::istream &is, double &v) {
+    long long m;
+    int e;
+    if (!(is >> m >> e)) return false;
+    v = std::ldexp((double)m, e);
+    return true;
+  }
+
+  // One object history.  Observation lines (doubles as "<mantissa> <exp2>"):
+  //   obs rowarea <margin> | obs todensity <target> <margin> <maxExpandedWidth> | obs byfactor <maxDensity> <margin> <factor>*
+  //   obs cellexp <fixedPenalty> <penaltyFactor> (<minX> <maxX> <minY> <maxY> <congestion>)*
+  void history(const std::string &id, const vhist::State &init, vhist::StepSource src) {
+    Circuit obj = vhist::rebuild(init);
+    const std::string initText = vhist::stateText(init);
+    std::vector<std::string> lines;
+    vhist::Tracker tr;
+    vhist::Step st;
+    int j = 0;
+    out.count("hist_histories");
+    while (src(obj, st)) {
+      lines.push_back(st.text());
+      std::string input = vhist::historyText(initText, lines);
+      vh::setCase(id, input);
+      if (st.isMut) {
+        try {
+          st.mut.apply(obj);
+          tr.mut(st.mut.name());
+          out.count("hist_mutators_applied");
+        } catch (const std::exception &e) {
+          out.count(std::string("hist_mutator_threw_") + vhist::mkName(st.mut.kind) + " (counted, object unchanged)");
+        }
+        continue;
+      }
+      std::istringstream is(st.obs);
+      std::string kw, kind;
+      is >> kw >> kind;
+      std::string oid = id + "_" + std::to_string(j++);
+      for (auto &k : tr.obs(st.obs)) out.count(k);
+      out.count("hist_obs_" + kind);
+      // the state just before the call, as a fresh object (oracle reference and model input) ...
+      vhist::State s0 = vhist::snapshot(obj);
+      Circuit c0 = vhist::rebuild(s0);
+      // ... and a second fresh object on which the same call is made (metamorphic twin)
+      Circuit twin = vhist::rebuild(s0);
+      inputOverride = &input;
+      header(oid, c0);
+      auto opsPos = out.ops.tellp();
+      std::string got, fresh;
+      if (kind == "rowarea") {
+        double margin = 0;
+        readDy(is, margin);
+        got = std::to_string(rowArea(oid, obj, margin));
+        fresh = std::to_string(twin.computeRowPlacementArea(margin));
+        if (vc::circuitString(obj) != vc::circuitString(c0)) out.fail(oid, "object history: computeRowPlacementArea changed the observable state", input);
+        out.evaluations++;
+      } else if (kind == "todensity") {
+        double target = 0.5, margin = 0, cap = 1;
+        readDy(is, target); readDy(is, margin); readDy(is, cap);
+        toDensity(oid, c0, target, margin, cap, &obj);
+        twin.expandCellsToDensity(target, margin, cap);
+      } else if (kind == "byfactor") {
+        double maxD = 1, margin = 0, v;
+        readDy(is, maxD); readDy(is, margin);
+        std::vector<float> f;
+        while (readDy(is, v)) f.push_back((float)v);
+        byFactor(oid, c0, f, maxD, margin, &obj, &got);
+        try {
+          fresh = "returned " + dy(twin.expandCellsByFactor(f, maxD, margin));
+        } catch (const std::exception &e) {
+          fresh = vc::exClass(e);
+        }
+      } else if (kind == "cellexp") {
+        double fp = 0, pf = 1;
+        readDy(is, fp); readDy(is, pf);
+        std::vector<Region> m;
+        int r4[4];
+        double cg;
+        while ((is >> r4[0] >> r4[1] >> r4[2] >> r4[3]) && readDy(is, cg)) m.emplace_back(Rectangle(r4[0], r4[1], r4[2], r4[3]), (float)cg);
+        cellExpansion(oid, obj, m, (float)fp, (float)pf, &got);
+        try {
+          fresh = "factors";
+          for (float v : twin.computeCellExpansion(m, (float)fp, (float)pf)) fresh += " " + dy(v);
+        } catch (const std::exception &e) {
+          fresh = vc::exClass(e);
+        }
+        if (vc::circuitString(obj) != vc::circuitString(c0)) out.fail(oid, "object history: computeCellExpansion changed the observable state", input);
+      } else {
+        out.count("hist_obs_unknown");
+      }
+      if (out.ops.tellp() != opsPos) out.count("hist_obs_" + kind + "_compared_with_model (replica shows no rounding)");
+      got += " | state " + vc::circuitString(obj);
+      fresh += " | state " + vc::circuitString(twin);
+      if (got != fresh) {
+        std::string a1 = got.substr(0, got.find(" | state ")), b1 = fresh.substr(0, fresh.find(" | state "));
+        std::string wo = widths(obj), wt = widths(twin);
+        out.fail(oid, "object history: " + kind + " on the object gives [" + a1 + "] " + wo + " but on a freshly constructed circuit with the same observable state [" +
+                          b1 + "] " + wt, input);
+      }
+      inputOverride = nullptr;
+    }
   }
 };
 
@@ -548,8 +681,26 @@ int main(int argc, char **argv) {
   out.rule = "instance = (circuit, call with its arguments); non-trivial = the call changes at least one width "
              "(expansion calls) or at least one cell intersects a congested region (computeCellExpansion); distinct by canonical text. "
              "Exact stream: dyadic instances on which a replica of the floating-point operation sequence shows no rounding "
-             "(counts *_exact), compared with the rational model; every instance goes through the invariant oracle";
+             "(counts *_exact), compared with the rational model; every instance goes through the invariant oracle. "
+             "Object-history stream: every observation of a history (mutators and observed calls interleaved on one Circuit object) "
+             "is one more instance, compared in addition with the same call on a freshly rebuilt circuit of the same observable state";
   Runner r(out);
+  // --replay of a recorded object history: only that history
+  if (!a.replay.empty()) {
+    std::string input = vhist::replayInput(a.replay);
+    if (vhist::isHistoryText(input)) {
+      vhist::History h;
+      if (vhist::parseHistory(input, h)) {
+        r.history("replay", h.init, vhist::recorded(h.steps));
+        out.count("replayed_history");
+      } else {
+        out.notes.push_back("replay: the history in the input field of " + a.replay + " could not be parsed");
+        out.count("replay_unparsed");
+      }
+      out.finish();
+      return 0;
+    }
+  }
   long long n1 = a.thorough() ? 200000 : (a.search() ? 60000 : 20000);
   // 0. fixed witnesses of the cap overshoot of the unrepaired expandCellsByFactor (truncated expandedArea)
   {
@@ -650,6 +801,71 @@ int main(int argc, char **argv) {
       float fp = g.chance(1, 2) ? 0.0f : (float)(g.range(-2, 20) / 10.0), pf = g.chance(1, 2) ? 1.0f : (float)(g.range(8, 30) / 10.0);
       r.cellExpansion(id, c, genRegions(g, c, false), fp, pf);
     }
+  }
+  // 3. object histories: mutators and observations interleaved on one Circuit object
+  long long nh = a.thorough() ? 60000 : (a.search() ? 20000 : 6000);
+  for (long long i = 0; i < nh; ++i) {
+    vh::Rng g = vh::Rng::forCase(a.seed, 3000000000ll + i);
+    vhist::State init;
+    auto margin = std::make_shared<double>(0.0);
+    if (i % 2 == 0) {
+      ExactInst in = genExact(g, i % 4 == 0);
+      init = vhist::snapshot(in.c);
+      *margin = in.margin;
+      out.count("hist_init_dyadic");
+    } else {
+      vc::GenOpts o;
+      o.nets = (i % 16 == 1);
+      o.maxCells = 12;
+      init = vhist::snapshot(vc::genCircuit(g, o));
+      static const std::vector<double> margins = {0, 0, 0.5, 1, 0.25, 1.5, 0.3, 1.0 / 7};
+      *margin = g.pick(margins);
+      out.count("hist_init_common_generator");
+    }
+    vhist::MutProfile prof;
+    prof.maxWidth = 12;
+    prof.invertedRows = false;
+    auto genObs = [margin](vh::Rng &gg, const Circuit &c) {
+      static const std::vector<double> margins = {0, 0.5, 1, 0.25, 1.5, 0.75};
+      double mg = gg.chance(1, 6) ? gg.pick(margins) : *margin;  // mostly the same margin within a history
+      int m = gg.range(0, 19);
+      std::ostringstream os;
+      if (m < 3) {
+        os << "obs rowarea " << dy(mg);
+      } else if (m < 10) {
+        long long A = movableArea(c);
+        long double R = availableArea(c, mg).hi;
+        double target = gg.range(1, 999) / 1000.0;
+        static const std::vector<double> fs = {1.25, 1.5, 2, 1.125, 3, 1.75};
+        if (A > 0 && R > 0 && gg.chance(1, 2)) {
+          double t = gg.pick(fs) * (double)A / (double)R;
+          if (t > 0 && t < 1) target = t;
+        } else if (gg.chance(1, 3)) target = gg.range(1, 31) / 32.0;
+        static const std::vector<double> caps = {1, 1, 1, 0.5, 0.25, 0.125, 2, 0.0625, 0};
+        os << "obs todensity " << dy(target) << " " << dy(mg) << " " << dy(gg.pick(caps));
+      } else if (m < 16) {
+        double maxD = gg.chance(1, 3) ? 1.0 : (gg.chance(1, 2) ? gg.range(1, 32) / 32.0 : gg.range(1, 1200) / 1000.0);
+        os << "obs byfactor " << dy(maxD) << " " << dy(mg);
+        bool sixteenth = gg.chance(1, 2);
+        int n = c.nbCells();
+        for (int k = 0; k < n; ++k) {
+          float f = gg.chance(1, 4) ? 1.0f : (sixteenth ? 1.0f + (float)gg.range(0, 24) / 16.0f : 1.0f + (float)(gg.range(0, 3000) / 1000.0));
+          os << " " << dy(f);
+        }
+        if (gg.chance(1, 40)) os << " " << dy(1.0);  // wrong length: must throw and leave the object alone
+      } else {
+        bool exact = gg.chance(1, 2);
+        static const std::vector<float> fps = {0.0f, 0.0f, 0.25f, 0.5f, 1.0f, -0.5f}, pfs = {1.0f, 1.0f, 1.5f, 2.0f, 1.25f, 0.5f};
+        os << "obs cellexp " << dy(gg.pick(fps)) << " " << dy(gg.pick(pfs));
+        if (c.nbRows() > 0)
+          for (auto &rc : genRegions(gg, c, exact))
+            os << " " << rc.first.minX << " " << rc.first.maxX << " " << rc.first.minY << " " << rc.first.maxY << " " << dy(rc.second);
+      }
+      return os.str();
+    };
+    int rounds = g.range(3, 8);
+    auto plan = std::make_shared<vhist::Plan>(g, prof, genObs, rounds);
+    r.history("h" + std::to_string(i), init, [plan](const Circuit &c, vhist::Step &st) { return plan->next(c, st); });
   }
   out.finish();
   return 0;
